@@ -128,15 +128,17 @@ fn nudge_check(out: &mut Out, depth: u8, h: u64, c: (f64, f64), p: (f64, f64), i
   // bring x next to the centre; in the caps the point may be expressed in the adjacent facet
   let mut dxc = x - c.0; if dxc > 4.0 { dxc -= 8.0; } if dxc < -4.0 { dxc += 8.0; }
   let n = (1u64 << depth) as f64;
-  if (dxc.abs() + (q.1 - c.1).abs()) * n > 1.0 + 1e-6 {
+  // one ulp of a plane abscissa (magnitude up to 8) is 1.8e-15 * n cells: 1e-6 of a cell at depth 29, so the tolerance grows with n
+  let tol = 1e-6 + 64.0 * f64::EPSILON * n;
+  if (dxc.abs() + (q.1 - c.1).abs()) * n > 1.0 + tol {
     if q.1.abs() > 1.0 {
       let xc = 2.0 * (x / 2.0).floor() + 1.0;
       for cand in [2.0 * xc + 2.0 - x, 2.0 * xc - 2.0 - x].iter() {
         let mut d2 = cand - 8.0 * (cand / 8.0).floor() - c.0; if d2 > 4.0 { d2 -= 8.0; } if d2 < -4.0 { d2 += 8.0; }
-        if (d2.abs() + (q.1 - c.1).abs()) * n <= 1.0 + 1e-6 { dxc = d2; x = *cand; }
+        if (d2.abs() + (q.1 - c.1).abs()) * n <= 1.0 + tol { dxc = d2; x = *cand; }
       }
     }
-    if (dxc.abs() + (q.1 - c.1).abs()) * n > 1.0 + 1e-6 { out.violation(kind, inp.to_string(), "a point of the closed cell".into(), format!("plane point {:?} vs centre {:?}", q, c)); return; }
+    if (dxc.abs() + (q.1 - c.1).abs()) * n > 1.0 + tol { out.violation(kind, inp.to_string(), "a point of the closed cell".into(), format!("plane point {:?} vs centre {:?}", q, c)); return; }
   }
   let _ = x;
   let t = 1.0 - 1e-3;
